@@ -36,7 +36,7 @@ ASSUMPTIONS = [
     "path components are matched case-sensitively",
 ]
 BUDGET = {"quick": (200, 4), "thorough": (64000, 16)}
-REQUIRED = ["glob", "dir_pattern", "basename", "relpath_pattern", "ii_file", "nested", "child_after_parent", "x_file_and_dir", "multi_generation", "duplicate_pattern", "verify_dh"]
+REQUIRED = ["glob", "dir_pattern", "basename", "relpath_pattern", "ii_file", "nested", "child_after_parent", "x_file_and_dir", "multi_generation", "duplicate_pattern", "verify_dh", "sf_generation"]
 
 DEFAULTS = [".DS_Store", "ascmhl", "ascmhl/"]
 _first = "abcdefghijklmnopqrstuvwxyzABCDEXYZ0123456789_."
@@ -96,15 +96,21 @@ def _scn(draw):
     for i in range(draw(st.integers(1, 4))):
         gens.append({"i": draw(_patterns(nf, nd, draw(st.integers(1, 3)) if i == 0 else draw(st.integers(0, 2)), deep)), "ii": draw(_patterns(nf, nd, draw(st.sampled_from([0, 0, 1, 2])), deep)), "formats": draw(gen.formats(2)),
                      "ii_newline": draw(st.booleans())})
-    if draw(st.booleans()) and gens[0]["ii"] + gens[0]["i"] and len(gens) > 1:
+    files = [p for p, d in entries if not d]
+    for i in range(1, len(gens)):
+        if draw(st.integers(0, 3)) == 0 and files:
+            # this generation is a create -sf on one file (its ancestors' histories get reference-only generations)
+            gens[i] = dict(gens[i], i=[], ii=[], sf=draw(st.sampled_from(files)))
+    if draw(st.booleans()) and gens[0]["ii"] + gens[0]["i"] and len(gens) > 1 and not gens[-1].get("sf"):
         allp = gens[0]["i"] + gens[0]["ii"]
         gens[-1]["ii"] = gens[-1]["ii"] + [allp[-1]]  # a pattern file repeating an earlier pattern
-    if draw(st.booleans()) and gens[0]["i"] and len(gens) > 1:
+    if draw(st.booleans()) and gens[0]["i"] and len(gens) > 1 and not gens[-1].get("sf"):
         gens[-1]["i"] = gens[-1]["i"] + [gens[0]["i"][0]]  # a duplicate of an earlier pattern
     constant = draw(st.booleans())
     if constant:
         for g in gens[1:]:
             g["i"], g["ii"] = [], []
+            g.pop("sf", None)
     return {"tree": tree, "child": child, "child_patterns": draw(_patterns(nf, nd, draw(st.integers(0, 2)))) if child else [], "gens": gens, "edits": draw(st.integers(0, 2**16)),
             # the nested history is started before generation child_at of the parent (0 = before the parent exists)
             "child_at": draw(st.integers(0, len(gens) - 1)) if child else 0}
@@ -139,6 +145,8 @@ def ambiguous_dir(relpath, patterns):
 
 
 def seal(w, root, g, tag):
+    if g.get("sf"):
+        return w.create(root, g["formats"], sf=["R/" + g["sf"]])
     args = []
     for p in g["i"]:
         args += ["-i", p]
@@ -174,7 +182,8 @@ def run_world(w, scn, remove_x_first, ctx, feats, check):
     # effective pattern list of the top history after all generations (what the last run uses)
     eff = list(DEFAULTS)
     for g in scn["gens"]:
-        eff = expected_list(eff, g["i"] + g["ii"])
+        if not g.get("sf"):
+            eff = expected_list(eff, g["i"] + g["ii"])
     if remove_x_first:
         for p, isdir in sorted(_walk(tree), key=lambda t: -len(t[0])):
             if matches(p, eff) and ("R/" + p in w.files or "R/" + p in w.dirs):
@@ -196,13 +205,29 @@ def run_world(w, scn, remove_x_first, ctx, feats, check):
     prev = None
     last = None
     for gi, g in enumerate(scn["gens"]):
+        if g.get("sf") and last is None:
+            g = dict(g, sf=None)  # (the first generation is always a folder-mode one)
         if child and "R/" + child in w.dirs and gi == scn.get("child_at", 0):
             prev_child = start_child()
             if gi > 0:
                 feats.add("child_after_parent")
         nchild = len(w.manifests("R/" + child)) if child else 0
+        ntop = len(w.manifests("R"))
+        if g.get("sf") and "R/" + g["sf"] not in w.files:
+            continue
         res = seal(w, "R", g, "g%d" % gi)
         require(res.exc is None and res.exit_code == 0, "create-exit", "generation %d: %s\n%s" % (gi + 1, res.brief(), res.output[-300:]), res)
+        if g.get("sf"):
+            feats.add("sf_generation")
+            if len(w.manifests("R")) > ntop:
+                sdoc = w.read_history("R")[-1][2]
+                if check:
+                    want = expected_list(prev, [])
+                    require(sdoc["patterns"] == want, "pattern-list", "-sf generation %d patterns %r, expected the recorded list %r" % (gi + 1, sdoc["patterns"], want), res)
+                prev = sdoc["patterns"]
+            if child and prev_child is not None and len(w.manifests("R/" + child)) > nchild:
+                prev_child = w.read_history("R/" + child)[-1][2]["patterns"]
+            continue
         doc = w.read_history("R")[-1][2]
         want = expected_list(prev, g["i"] + g["ii"])
         if check:
